@@ -882,6 +882,11 @@ class EventBus:
             while self._is_running:
                 try:
                     _processed_event = await self.step()
+                    # Handler clean-up code further down swallows CancelledError ("expected when we cancel the task"):
+                    # if it was this task that is being cancelled, honour the request now instead of polling on forever
+                    current_task = asyncio.current_task()
+                    if current_task is not None and current_task.cancelling():
+                        break
                     # Check if we should set idle state after processing
                     if self._on_idle and self.event_queue:
                         if not (self.events_pending or self.events_started or self.event_queue.qsize()):
@@ -914,6 +919,7 @@ class EventBus:
         if not self._is_running:
             return None
 
+        get_next_queued_event: asyncio.Task[Any] | None = None
         try:
             # Create a task for queue.get() so we can cancel it cleanly
             get_next_queued_event = asyncio.create_task(self.event_queue.get())
@@ -937,8 +943,14 @@ class EventBus:
                     self._on_idle.set()
                 return None
 
-        except (asyncio.CancelledError, RuntimeError, QueueShutDown):
-            # Clean cancellation during shutdown or queue was shut down
+        except asyncio.CancelledError:
+            # The run loop task itself is being cancelled (stop(), or asyncio.run() shutting down): it must terminate,
+            # swallowing the cancellation here would keep the bus polling forever and the program could never exit
+            if get_next_queued_event is not None:
+                get_next_queued_event.cancel()
+            raise
+        except (RuntimeError, QueueShutDown):
+            # Queue was shut down or the loop is closing
             return None
 
     async def step(
